@@ -8,6 +8,8 @@ import JumanjiModel.Env.Maze.Lemmas
 import JumanjiModel.Env.Maze.MazeGenLemmas
 import JumanjiModel.Env.Maze.FloodLemmas
 import JumanjiModel.Env.Maze.BoundsLemmas
+import JumanjiModel.Env.Maze.RunLemmas
+import JumanjiModel.Env.SpecTieSSM
 open Jm Maze
 
 /-- a 2×3 maze (non-square) with one wall, agent at (0,0), target at (1,2) -/
@@ -27,9 +29,15 @@ theorem maze_mask_iff_legal (cfg : Cfg) (s : State)
     (hs : Jx.Grid.shaped s.walls cfg.numRows cfg.numCols = true) (a : Nat) :
     (computeMask cfg s.walls s.agent).getD a false = true ↔ legal cfg s a := Maze.mask_iff_legal cfg s hs a
 
-/-- the validity test `step` applies (lookup in the cached mask) agrees with the rules -/
+/-- `step` agrees with the rules about which actions are valid (audit r2 #6: a statement about `step`, not about
+the mask lookup): from a state with a fresh cached mask, `step` moves the agent to the neighbouring cell in
+direction `a` exactly when the rules allow that move, and leaves it where it is exactly when they do not -/
 theorem maze_step_agrees (cfg : Cfg) (s : State) (hi : Inv cfg s) (a : Nat) (ha : a < 4) :
-    Jx.getWC s.actionMask false (a : Int) = true ↔ legal cfg s a := Maze.step_agrees cfg s hi a ha
+    ((step cfg s (a : Int)).1.agent = dest s.agent a ↔ legal cfg s a) ∧
+    ((step cfg s (a : Int)).1.agent = s.agent ↔ ¬ legal cfg s a) := Maze.step_moves_iff cfg s hi a ha
+
+example : (step Props.mazeCfg Props.mazeEx 2).1.agent = (1, 0) ∧ (step Props.mazeCfg Props.mazeEx 1).1.agent = (0, 0) := by
+  decide
 
 /-- the successor's cached mask is fresh, so the invariant used above is maintained by every step -/
 theorem maze_cached_mask (cfg : Cfg) (s : State) (a : Int)
@@ -110,6 +118,43 @@ theorem maze_time_limit_last (cfg : Cfg) (s : State) (a : Int)
 theorem maze_last_iff (cfg : Cfg) (s : State) (a : Int)
     (hs : Jx.Grid.shaped s.walls cfg.numRows cfg.numCols = true) :
     (step cfg s a).2.stepType = .last ↔ endsSpec cfg (step cfg s a).1 := Maze.last_iff cfg s a hs
+
+/-! #### episode level: `run cfg s as` = the list of (successor state, timestep) pairs of playing `as` from `s` with the
+L1 `step`; transition `k` (0-based) is the `(k+1)`-th step, taken at counter value `s.stepCount + k`.  ALL states,
+ALL action lists (any integers), all sizes. -/
+
+/-- never later: every transition whose step number has reached the time limit is LAST — no hypotheses -/
+theorem maze_run_last_at_limit (cfg : Cfg) (s : State) (as : List Int) (k : Nat) (p : State × TimeStep Obs)
+    (h : (run cfg s as)[k]? = some p) (hk : s.stepCount + k + 1 ≥ cfg.timeLimit) : p.2.stepType = .last :=
+  Maze.run_last_at_limit cfg s as k p h hk
+
+/-- so every play that is long enough contains a LAST at or before step `time_limit` (counted from reset, where
+`step_count = 0`: `k + 1 ≤ time_limit`) -/
+theorem maze_run_exists_last (cfg : Cfg) (s : State) (as : List Int) (h0 : s.stepCount < cfg.timeLimit)
+    (hlen : cfg.timeLimit - s.stepCount ≤ as.length) :
+    ∃ (k : Nat) (p : State × TimeStep Obs), s.stepCount + k + 1 ≤ cfg.timeLimit ∧
+      (run cfg s as)[k]? = some p ∧ p.2.stepType = .last := Maze.run_exists_last cfg s as h0 hlen
+
+/-- never earlier: a transition of a play is LAST iff its successor is at the target, is stuck, or its step number
+has reached the limit -/
+theorem maze_run_last_iff (cfg : Cfg) (s : State) (hs : Jx.Grid.shaped s.walls cfg.numRows cfg.numCols = true)
+    (as : List Int) (k : Nat) (p : State × TimeStep Obs) (h : (run cfg s as)[k]? = some p) :
+    p.2.stepType = .last ↔ (atTarget p.1 ∨ stuck cfg p.1 ∨ s.stepCount + k + 1 ≥ cfg.timeLimit) :=
+  Maze.run_last_iff cfg s hs as k p h
+
+/-- if no other cause of termination occurs (target not reached, agent not stuck), the FIRST LAST of a play is exactly
+at step `time_limit` -/
+theorem maze_run_first_last_at_limit (cfg : Cfg) (s : State)
+    (hs : Jx.Grid.shaped s.walls cfg.numRows cfg.numCols = true) (h0 : s.stepCount < cfg.timeLimit)
+    (as : List Int) (k : Nat) (p : State × TimeStep Obs) (h : (run cfg s as)[k]? = some p)
+    (hlast : p.2.stepType = .last)
+    (hno : EpRun.NoLastBefore (step cfg) (·.stepType = .last) s as k)
+    (hother : ¬ atTarget p.1 ∧ ¬ stuck cfg p.1) : s.stepCount + k + 1 = cfg.timeLimit :=
+  Maze.run_first_last_eq cfg s hs h0 as k p h hlast hno hother
+
+-- 2×3 maze, limit 6, pacing Down/Up from (0,0): transitions 0..4 are MID, transition 5 (step 6 = time_limit) is LAST
+example : ((run Props.mazeCfg Props.mazeEx [2, 0, 2, 0, 2, 0, 2]).map (fun p => decide (p.2.stepType = .last))) =
+    [false, false, false, false, false, true, true] := by decide
 end Props.C11
 
 namespace Props.C12
@@ -118,6 +163,16 @@ around the NEW position, not copied) -/
 theorem maze_obs_faithful (cfg : Cfg) (s : State) (a : Int)
     (hs : Jx.Grid.shaped s.walls cfg.numRows cfg.numCols = true) :
     (step cfg s a).2.obs = observe cfg (step cfg s a).1 := Maze.obs_faithful cfg s a hs
+
+/-- the observation returned by `reset` (generator output `g` of the configured shape, mask recomputed, `restart`)
+is the documented function of the reset state, and the timestep is FIRST -/
+theorem maze_reset_obs_faithful (cfg : Cfg) (g : State)
+    (hs : Jx.Grid.shaped g.walls cfg.numRows cfg.numCols = true) :
+    (Maze.reset cfg g).2.obs = observe cfg (Maze.reset cfg g).1 ∧ (Maze.reset cfg g).2.stepType = .first :=
+  Maze.reset_obs_faithful cfg g hs
+
+example : Jx.Grid.shaped Maze.toyState.walls 5 5 = true ∧
+    (observe ⟨5, 5, 25⟩ (Maze.reset ⟨5, 5, 25⟩ Maze.toyState).1).actionMask = [false, false, true, false] := by decide
 end Props.C12
 
 namespace Props.C10
@@ -145,6 +200,46 @@ example : isRecursiveDivisionMaze
     [[false, true, false, true, false],
      [false, true, false, true, false],
      [false, false, false, false, false]] 3 5 = true := by decide
+
+/-! #### the generators themselves (audit r2, Maze gap "free start and target")
+`Maze.generate cfg d` transliterates `RandomGenerator.__call__`: the draws `d` are the wall map returned by
+`generate_maze` and the two flat indices returned by `jax.random.choice(…, (2,), replace=False, p=~walls.flatten())`;
+`validGenDraw`: the wall map passes the recursive-division certificate, the two indices are DIFFERENT cells of non-zero
+probability.  `Maze.reset cfg g` is the transliterated `reset`. -/
+
+/-- for ALL admissible draws, all sizes: the reset state is `Consistent` (agent and target on free cells of the grid,
+walls of the configured shape, fresh mask), agent and target are on different cells, the counter is 0, and the target
+can be reached from the agent by 4-neighbour steps through free cells (so the instance is solvable) -/
+theorem maze_generated_wellformed (cfg : Cfg) (d : GenDraw) (hv : validGenDraw cfg d) :
+    Consistent cfg (Maze.reset cfg (generate cfg d)).1 ∧
+    (Maze.reset cfg (generate cfg d)).1.agent ≠ (Maze.reset cfg (generate cfg d)).1.target ∧
+    (Maze.reset cfg (generate cfg d)).1.stepCount = 0 ∧
+    Reach (Ok d.walls 0 0 cfg.numCols cfg.numRows) (cellOf cfg d.i) (cellOf cfg d.j) :=
+  Maze.generated_wellformed cfg d hv
+
+/-- the certificate `generated_by_model` of the `maze.instance` op (the implementation's reset state equals the
+model's `reset ∘ generate` of admissible draws read off that state) implies the advertised invariants -/
+theorem maze_generatedBy_sound (cfg : Cfg) (s : State) (h : generatedBy cfg s = true) :
+    Consistent cfg s ∧ s.agent ≠ s.target ∧ s.stepCount = 0 ∧ Conn s.walls 0 0 cfg.numCols cfg.numRows :=
+  Maze.generatedBy_sound cfg s h
+
+/-- the draws are satisfiable: the 3×5 maze above, agent at cell 0 = (0,0), target at cell 14 = (2,4) -/
+example : validGenDraw ⟨3, 5, 15⟩ ⟨[[false, true, false, true, false], [false, true, false, true, false],
+    [false, false, false, false, false]], 0, 14⟩ := by decide
+/-- … and wall cells / equal cells are rejected -/
+example : ¬ validGenDraw ⟨3, 5, 15⟩ ⟨[[false, true, false, true, false], [false, true, false, true, false],
+    [false, false, false, false, false]], 1, 14⟩ ∧
+    ¬ validGenDraw ⟨3, 5, 15⟩ ⟨[[false, true, false, true, false], [false, true, false, true, false],
+    [false, false, false, false, false]], 14, 14⟩ := by decide
+
+/-- `ToyGenerator` (`Maze.toyState`, certificate `toy_generated` of the instance op): consistent for every time limit,
+agent ≠ target, free cells 4-connected -/
+theorem maze_toy_wellformed (tl : Int) :
+    Consistent ⟨5, 5, tl⟩ (Maze.reset ⟨5, 5, tl⟩ toyState).1 ∧ toyState.agent ≠ toyState.target ∧
+    Conn toyState.walls 0 0 5 5 := by
+  refine ⟨?_, by decide, MazeGen.conn_of_connected _ 5 5 (by decide)⟩
+  show Consistent ⟨5, 5, 0⟩ (Maze.reset ⟨5, 5, 0⟩ toyState).1
+  decide
 end Props.C10
 
 namespace Props.C01
@@ -155,12 +250,49 @@ theorem maze_reset_obs_in_bounds (cfg : Cfg) (g : State) (ha : inGrid cfg g.agen
     (h0 : g.stepCount = 0) (htl : 0 ≤ cfg.timeLimit) : ObsInBounds cfg (Maze.reset cfg g).2.obs :=
   Maze.reset_obs_in_bounds cfg g ha ht h0 htl
 
+/-- shapes (audit r2 #15): the reset observation has the shapes `obsShapes cfg` lists — `walls` is
+`num_rows × num_cols` (when the generator's wall map is), `action_mask` has 4 entries -/
+theorem maze_reset_obs_shaped (cfg : Cfg) (g : State) (hs : Jx.Grid.shaped g.walls cfg.numRows cfg.numCols = true) :
+    ObsShaped cfg (Maze.reset cfg g).2.obs := Maze.reset_obs_shaped cfg g hs
+
+/-- the hypotheses of the reset theorems hold for every admissibly generated state (and the toy state) -/
+theorem maze_generated_reset_hyps (cfg : Cfg) (d : GenDraw) (hv : validGenDraw cfg d) :
+    Jx.Grid.shaped (generate cfg d).walls cfg.numRows cfg.numCols = true ∧
+    free cfg (generate cfg d).walls (generate cfg d).agent ∧ free cfg (generate cfg d).walls (generate cfg d).target ∧
+    (generate cfg d).stepCount = 0 := by
+  have h := (Maze.generated_wellformed cfg d hv).1
+  exact ⟨h.1.1, h.2.1, h.2.2, rfl⟩
+example : inGrid ⟨5, 5, 25⟩ toyState.agent ∧ inGrid ⟨5, 5, 25⟩ toyState.target ∧ toyState.stepCount = 0 ∧
+    free ⟨5, 5, 25⟩ toyState.walls toyState.agent ∧ free ⟨5, 5, 25⟩ toyState.walls toyState.target := by decide
+
 /-- every step taken from a consistent state of a running episode (`0 ≤ step_count < time_limit`) with any
 in-spec action emits an observation inside `obsBounds cfg` — including the terminal step, where
 `step_count = time_limit` -/
 theorem maze_step_obs_in_bounds (cfg : Cfg) (s : State) (hc : Consistent cfg s) (h0 : 0 ≤ s.stepCount)
     (h1 : s.stepCount < cfg.timeLimit) (a : Nat) (ha : a < 4) :
     ObsInBounds cfg (step cfg s (a : Int)).2.obs := Maze.step_obs_in_bounds cfg s hc h0 h1 a ha
+
+/-- … and the shapes `obsShapes cfg` lists, for ANY action value -/
+theorem maze_step_obs_shaped (cfg : Cfg) (s : State) (hs : Jx.Grid.shaped s.walls cfg.numRows cfg.numCols = true)
+    (a : Int) : ObsShaped cfg (step cfg s a).2.obs := Maze.step_obs_shaped cfg s hs a
+
+/-- values and shapes together, along a running episode -/
+theorem maze_step_obs_conforms (cfg : Cfg) (s : State) (hc : Consistent cfg s) (h0 : 0 ≤ s.stepCount)
+    (h1 : s.stepCount < cfg.timeLimit) (a : Nat) (ha : a < 4) :
+    ObsInBounds cfg (step cfg s (a : Int)).2.obs ∧ ObsShaped cfg (step cfg s (a : Int)).2.obs :=
+  ⟨Maze.step_obs_in_bounds cfg s hc h0 h1 a ha, Maze.step_obs_shaped cfg s hc.1.1 a⟩
+
+/-- the proved intervals and shapes lie inside the DECLARED spec (the literals generated from the real
+`observation_spec` objects, `Gen/Specs.lean`) for the catalogue configurations of Maze: every declared observation
+leaf (7 of them) is covered, has the proved shape, and its `[minimum, maximum]` contains the proved interval -/
+theorem maze_bounds_within_declared_spec :
+    SpecTieSSM.tie "maze-5x7" (obsBounds ⟨5, 7, 9⟩) (obsShapes ⟨5, 7, 9⟩) = true ∧
+    SpecTieSSM.tie "maze-none-3x5" (obsBounds ⟨3, 5, 15⟩) (obsShapes ⟨3, 5, 15⟩) = true ∧
+    SpecTieSSM.tie "maze-none" (obsBounds ⟨4, 4, 16⟩) (obsShapes ⟨4, 4, 16⟩) = true ∧
+    (SpecTieSSM.obsLeavesOf "maze-5x7").length = 7 := by decide +kernel
+/-- the tie is not vacuous: one row too many, or a wrong mask length, is rejected -/
+example : SpecTieSSM.tie "maze-5x7" (obsBounds ⟨6, 7, 9⟩) (obsShapes ⟨5, 7, 9⟩) = false ∧
+    SpecTieSSM.tie "maze-5x7" (obsBounds ⟨5, 7, 9⟩) (obsShapes ⟨5, 8, 9⟩) = false := by decide +kernel
 
 /-- the reset state is consistent, so the step theorem applies along every episode (with `maze_step_consistent`) -/
 theorem maze_reset_consistent (cfg : Cfg) (g : State)
